@@ -102,7 +102,7 @@ func checkC13() *checkDef {
 }
 
 func allChecks() []*checkDef {
-	return []*checkDef{checkC01(), checkC02(), checkC03(), checkC04(), checkC05(), checkC06(), checkC07(), checkC08(), checkC09(), checkC10(), checkC11(), checkC12(), checkC13(), checkC14(), checkC15(), checkC16(), checkC17(), checkC18(), checkC19()}
+	return []*checkDef{checkC01(), checkC02(), checkC03(), checkC04(), checkC05(), checkC06(), checkC07(), checkC08(), checkC09(), checkC10(), checkC11(), checkC12(), checkC13(), checkC14(), checkC15(), checkC16(), checkC17(), checkC18(), checkC19(), checkC20()}
 }
 
 func freshRuns(tier string) []run {
@@ -437,6 +437,30 @@ func checkC18() *checkDef {
 				{Pkg: "./config", Scenario: "config/update", Params: map[string]any{"depth": d}},
 				{Pkg: "./config", Scenario: "config/persist-faults", Params: map[string]any{}},
 				{Pkg: "./proxy", Scenario: "proxy/config-workable", Params: map[string]any{}, Workers: 4},
+			}
+		},
+	}
+}
+
+func checkC20() *checkDef {
+	return &checkDef{
+		ID: "C20", Title: "Dashboard API needs a live session obtained with the right password", Level: "model_checking",
+		LevelText: "Handler under test: the one the web server hands to its listener (captured, i.e. middleware.Harden(mux) with the API registered as main does) over a migrated sqlite database in a scratch directory. Route enumeration: every registered (method, route) read from api.New(cfg).endpoints x 7 methods x 8 dead cookie kinds (absent, empty, random, logged-out, expired by 1 s / 11 min / 2 h on the virtual clock): 401 and no change to config, config file and user row; with a live session no registered route answers 401. Session histories over {login, bad login, request, logout, +49m, +51m, +1h, +1h1s, +2h, +16m (GC sweep)} up to depth 5 against the reference B5 (live from login until logout or expiry; the sliding extension is left free). Login matrix: 6 passwords x 6 stored hashes and 7 malformed stored hashes. Harden matrix: 7 Origin forms x 5 Sec-Fetch-Site values x 7 methods with a counting probe handler.",
+		LevelNote: "Trusted: the overlay stub for the generated CSP constant, cheap Argon2 parameters in the stored test hashes (the verification code is the real one), the in-memory response writer. The SSE log stream is exercised only up to its first write (cancelled context).",
+		Technique: "bounded-exhaustive route/method/cookie and header-matrix enumeration + explicit-state enumeration of session histories on the virtual clock against a reference session model",
+		DesignRef: "DESIGN.md section 4 C20, appendix B5",
+		Rule:        "all (route, method, cookie kind) triples; all event histories up to the depth starting with a login; all (password, stored hash) pairs; all (Origin, Sec-Fetch-Site, method) triples",
+		Assumptions: seqAssumptions,
+		Runs: func(tier string) []run {
+			d := 5
+			if tier == "thorough" {
+				d = 6
+			}
+			return []run{
+				{Pkg: "./webserver/api", Scenario: "api/routes", Params: map[string]any{}, Workers: 1},
+				{Pkg: "./webserver/api", Scenario: "api/login", Params: map[string]any{}, Workers: 1},
+				{Pkg: "./webserver/api", Scenario: "api/sessions", Params: map[string]any{"depth": d}},
+				{Pkg: "./webserver/middleware", Scenario: "middleware/harden", Params: map[string]any{}, Workers: 1},
 			}
 		},
 	}
